@@ -142,7 +142,7 @@ fn judge_sequence<D: GD>(d: &mut D, imp: Impl, programs: &[(String, ParseResult,
             // a program that fails when built alone (e.g. the empty program, recorded under C06) has no baseline to compare with
             if target.alone.is_some() && !matches!((&got, &target.alone), (Some(a), Some(b)) if same(a, b)) {
                 ctx.fail(
-                    "shared-run-differs-from-alone:between-builds".to_string(),
+                    format!("shared-run-differs-from-alone:between-builds{}", unsettled_construct(&target.text, &input)),
                     format!("{:?} (program #{} of {}) run between builds on {} gives {} but alone it gives {}", target.text, which, programs.len(), imp.name(), show(&got), show(&target.alone)),
                 );
             }
@@ -154,7 +154,7 @@ fn judge_sequence<D: GD>(d: &mut D, imp: Impl, programs: &[(String, ParseResult,
         ctx.sub_evals += 1;
         if b.alone.is_some() && !matches!((&got, &b.alone), (Some(a), Some(x)) if same(a, x)) {
             ctx.fail(
-                "shared-run-differs-from-alone:after-all-builds".to_string(),
+                format!("shared-run-differs-from-alone:after-all-builds{}", unsettled_construct(&b.text, &input)),
                 format!("{:?} (program #{} of {}: {:?}) run from its entry {} on {} gives {} but alone it gives {}", b.text, k, built.len(), programs.iter().map(|p| p.0.as_str()).collect::<Vec<_>>(), b.ext.entry, imp.name(), show(&got), show(&b.alone)),
             );
         }
@@ -259,5 +259,24 @@ impl Check for C20Check {
             }
             _ => {}
         }
+    }
+}
+
+/// root-cause key for a differing run: does the program look a symbol up in a list that holds that key twice? (the
+/// reference evaluator leaves that look-up undefined; SimpleGarnishData answers it by item address, see the recorded finding)
+fn unsettled_construct(text: &str, input: &V) -> &'static str {
+    let toks = match crate::model::refparse::tokens_from_text(text) {
+        Ok(t) => t,
+        Err(_) => return "",
+    };
+    let tree = match crate::model::refparse::Pratt::parse(&toks) {
+        Ok(t) => t,
+        Err(_) => return "",
+    };
+    let host = crate::model::refeval::Host::default();
+    let mut ev = crate::model::refeval::Eval::new(&host, 20_000);
+    match ev.run(&tree, input.clone()) {
+        Err(crate::model::refeval::Stop::Undefined("duplicate-keys")) => "[looks-up-a-duplicated-list-key]",
+        _ => "",
     }
 }
